@@ -5,6 +5,7 @@ package xpath
 // XPath 1.0 answer. Used to confirm fix: commits and as replay support.
 
 import (
+	"regexp"
 	"sort"
 	"strconv"
 	"fmt"
@@ -1603,5 +1604,48 @@ func TestProbe_names(t *testing.T) {
 	}
 	if _, err := CompileWithNS("/r/zz:a", ns); err == nil {
 		t.Errorf("unbound prefix zz accepted")
+	}
+}
+
+func TestProbe_regex(t *testing.T) {
+	root := wdoc(`<r><s>hello world</s><s>abc123</s><e/></r>`)
+	eval := func(ex string) interface{} {
+		e, err := Compile(ex)
+		if err != nil {
+			return "compile error: " + err.Error()
+		}
+		var v interface{}
+		func() {
+			defer func() {
+				if r := recover(); r != nil {
+					v = fmt.Sprint("panic: ", r)
+				}
+			}()
+			v = e.Evaluate(&TNodeNavigator{curr: root, root: root, attr: -1})
+		}()
+		return v
+	}
+	strs := map[string]string{"'hello world'": "hello world", "'abc123'": "abc123", "''": "", "//s": "hello world", "//s[2]": "abc123", "//e": "", "//zz": ""}
+	pats := []string{"o w", "^h", "d$", "[0-9]+", "x*", "^$", "(l+)o", "a|b", ".", "^.*$", "\\d", "h(e)(l)"}
+	for src, s := range strs {
+		for _, p := range pats {
+			want := regexp.MustCompile(p).MatchString(s)
+			ex := fmt.Sprintf("matches(%s, '%s')", src, p)
+			if got := eval(ex); got != interface{}(want) {
+				t.Errorf("%s: got %v (%T) want %v", ex, got, got, want)
+			}
+			for _, rep := range []string{"X", "[$1]", "$0-", "", "$2$1"} {
+				want := regexp.MustCompile(p).ReplaceAllString(s, regexp.MustCompile(`\$(\d+)`).ReplaceAllString(rep, "${$1}"))
+				ex := fmt.Sprintf("replace(%s, '%s', '%s')", src, p, rep)
+				if got := eval(ex); got != interface{}(want) {
+					t.Errorf("%s: got %q want %q", ex, got, want)
+				}
+			}
+		}
+	}
+	for _, bad := range []string{"matches('a', '(')", "replace('a', '[', 'x')", "//s[matches(., '*')]"} {
+		if _, err := Compile(bad); err == nil {
+			t.Errorf("%s: constant pattern that does not compile was accepted", bad)
+		}
 	}
 }
